@@ -25,6 +25,9 @@ from symex import SymEx, show, strip
 TYPES = ['X', 'Xm', 'V', 'H']
 
 
+from symex import show_lv as symex_show_lv
+
+
 def sk(t):
     return re.sub(r'#(?:i\d+:)?\d+\.\d+', '', show(t))
 
@@ -148,6 +151,9 @@ def extract(facts, rep):
         for e in p.branches():
             if sk(e.term) == 'discr(arg2)' and isinstance(e.value, int):
                 bit = e.value
+            elif sk(e.term).replace('&', '') in ('is_zero(arg2)', 'is_one(arg2)'):
+                truth = e.value != 0
+                bit = (0 if truth else 1) if 'is_zero' in sk(e.term) else (1 if truth else 0)
         new = None
         for e in p.events:
             if e.kind == 'write' and e.lv[1] == ('ctype',) and e.term[0] == 'adt':
@@ -198,14 +204,20 @@ def extract(facts, rep):
                     j = e.value if isinstance(e.value, int) else None
                     if e.value == 'else':
                         jelse = tuple(e.args or ())
+            # what the path stores into signs[i]: Some(Sign::V) -> V; nothing / None -> undefined
             sg = None
-            for e in p.calls():
-                if e.name.endswith('Option::<T>::is_some') and e.args:
-                    a = strip(e.args[0])
-                    if a[0] == 'adt' and a[2] == 'Some':
-                        sg = a[4][0][2]
-                    elif a[0] == 'adt' and a[2] == 'None':
+            unknown_store = False
+            for e in p.events:
+                if e.kind == 'write' and 'signs' in symex_show_lv(e.lv):
+                    v = strip(e.term)
+                    if v[0] == 'adt' and v[2] == 'Some' and v[4] and strip(v[4][0])[0] == 'adt':
+                        sg = strip(v[4][0])[2]
+                    elif v[0] == 'adt' and v[2] == 'None':
                         sg = None
+                    else:
+                        unknown_store = True
+            if unknown_store:
+                continue
             if isinstance(ct, str) and j is not None:
                 T['sign'][(ct, j)] = sg
             elif isinstance(ct, str) and jelse is not None:
@@ -366,32 +378,60 @@ def check_exhaustive_sweep(facts, rep):
             for e in p.calls():
                 if e.name.endswith('into_iter') and e.args and sk(e.args[0]).startswith('Range'):
                     rng.add(re.sub(r'\^_ref__', '^', sk(e.args[0])))
-        if rng != {'Range::Range{start: 0, end: **arg1.^n}'}:
-            rep.indet('E7.T9: start-crossing range of %s is %s' % (fn, sorted(rng)))
+        by_range = rng == {'Range::Range{start: 0, end: **arg1.^n}'}
+        src = set()
+        for p in SymEx(b, havoc_loops=True, max_paths=5000).run():
+            for e in p.calls():
+                if e.name.endswith('into_iter') and e.args and not sk(e.args[0]).startswith('Range'):
+                    src.add(re.sub(r'\^_ref__', '^', re.sub(r'#(?:i\d+:)?\d+\.\d+', '', show(e.args[0], -1000))).replace('&', '').replace('*', ''))
+        by_data = not rng and bool(src) and all(re.match(r'(enumerate\()?iter\((deref\()?arg1\.\^self\.data\)+$', x) for x in src)
+        if not (by_range or by_data):
+            rep.indet('E7.T9: start-crossing range of %s is %s' % (fn, sorted(rng) or sorted(src)))
             continue
-        # the parent: n = number of crossings, positions swept
+        # the parent: n = number of crossings, positions swept = the constants the sweep closure is called with
         pb = facts.bodies.get(root)
         pos = set()
         n_def = set()
+        unknown_pos = False
         if pb is not None:
-            for p in SymEx(pb, havoc_loops=True, max_paths=5000).run():
+            paths = SymEx(pb, havoc_loops=True, max_paths=5000).run()
+            entry = {}
+            for p in paths:
+                for (fid, bb_, l), v in p.state.loop_entry.items():
+                    if fid == 0 and strip(v)[0] != 'loopvar':
+                        entry.setdefault(l, set()).add(sk(v))
+            for p in paths:
                 for e in p.calls():
-                    if e.name.endswith('into_iter') and e.args and sk(e.args[0]).startswith('['):
-                        pos.add(sk(e.args[0]))
+                    if e.name == b.defp and len(e.args) == 2 and strip(e.args[1])[0] == 'tuple':
+                        j = strip(strip(e.args[1])[1][-1])
+                        if j[0] == 'const' and isinstance(j[1], int):
+                            pos.add(j[1])
+                        elif j[0] == 'field' and j[2] == 'Some.0' and j[1][0] == 'call' and j[1][1].endswith('Iterator::next') and j[1][2][0][0] == 'mref':
+                            for v in entry.get(j[1][2][0][1][0][1], ()):
+                                m = re.match(r'into_iter\(\[([0-9, ]+)\]\)$', v)
+                                m2 = re.match(r'into_iter\(Range::Range\{start: (\d+), end: (\d+)\}\)$', v)
+                                if m:
+                                    pos.update(int(x) for x in m.group(1).split(','))
+                                elif m2:
+                                    pos.update(range(int(m2.group(1)), int(m2.group(2))))
+                                else:
+                                    unknown_pos = True
+                        else:
+                            unknown_pos = True
                     # (0..3).for_each(|j| traverse(j)) and the like
                     if e.name.split('::')[-1] == 'for_each' and e.args:
                         m = re.match(r'Range::Range\{start: (\d+), end: (\d+)\}$', sk(e.args[0]))
                         if m:
-                            pos.add('[%s]' % ', '.join(str(x) for x in range(int(m.group(1)), int(m.group(2)))))
+                            pos.update(range(int(m.group(1)), int(m.group(2))))
                     if e.name.split('::')[-1] == 'len' and e.args and 'arg1.data' in sk(e.args[0]):
                         n_def.add('len(data)')
-        if pos != want_pos or n_def != {'len(data)'}:
+        if unknown_pos or pos != {0, 1, 2} or (by_range and n_def != {'len(data)'}):
             rep.indet('E7.T9: %s sweeps the start positions %s with n from %s' % (fn, sorted(pos), sorted(n_def)))
             continue
         if bad:
             rep.violation('E7.T9-exhaustive-sweep', inst, 'Link::%s: ' % fn + '; '.join(bad) + ': the sweep stops at the first crossing whose start edge was already visited, later components are left to the fallback pass (walked against their orientation: signs depend on the crossing order) or are lost', where=b.where())
         else:
-            rep.ok('E7.T9-exhaustive-sweep', inst, 'for i0 in 0..n, exits only through next() == None; positions %s' % sorted(pos))
+            rep.ok('E7.T9-exhaustive-sweep', inst, 'every crossing tried as a start (%s), exits only through next() == None; positions %s' % ('0..n' if by_range else 'iter over data', sorted(pos)))
 
 
 def check_closure_gluing(facts, rep):
